@@ -61,7 +61,9 @@ theorem try_truncated_exact (a : Dur) (ha : a.Canon) :
     Dur.tryTruncated a ≠ .panic ∧
     (∀ v, Dur.tryTruncated a = .ok v → v = a.val) ∧
     (-2 * NPCs ≤ a.val ∧ a.val ≤ 2 * NPCs → Dur.tryTruncated a = .ok a.val) ∧
-    (fitsI64 a.val = false → Dur.tryTruncated a = .err) := tryTruncated_spec a ha
+    (fitsI64 a.val = false → Dur.tryTruncated a = .err) ∧
+    -- since fix e4d86c7 (counts between i64::MIN and −2 centuries used to be refused): succeeds EXACTLY when the count fits
+    (fitsI64 a.val = true → Dur.tryTruncated a = .ok a.val) := tryTruncated_spec a ha
 
 /-- the non-failing accessor: the count, or the i64 bound of the same sign -/
 theorem truncated_exact (a : Dur) (ha : a.Canon) :
@@ -98,5 +100,44 @@ theorem total_counterexample : ¬ (Dur.totalNs ⟨-2, 1⟩ = (Dur.mk (-2) 1).val
 
 example : (Dur.mk (-2) 1).Canon ∧ Dur.d1class ⟨-2, 1⟩ = true ∧ Dur.d1class ⟨-1, 1⟩ = false := by
   unfold Dur.Canon; simp only [NPC_eq]; decide
+
+end Hifi.C02
+
+namespace Hifi.C02
+open Hifi Hifi.Spec
+
+/-- `truncated_nanoseconds` is the count clamped to the i64 range, for EVERY canonical duration (since fix e4d86c7
+    also between i64::MIN and −2 centuries, where it used to answer i64::MIN: "never return a different number") -/
+theorem truncated_is_clamp (a : Dur) (ha : a.Canon) :
+    Dur.truncated a = .ok (if a.val < I64MIN then I64MIN else if a.val > I64MAX then I64MAX else a.val) := by
+  have ht := tryTruncated_spec a ha
+  obtain ⟨_, _, _, t4, t5⟩ := ht
+  have hsign : a.c < 0 ↔ a.val < 0 := by
+    obtain ⟨a1, a2, a3, a4⟩ := ha
+    unfold Dur.val valP; simp only [NPC_eq, NPCs_eq] at *; omega
+  unfold Dur.truncated
+  by_cases hf : fitsI64 a.val = true
+  · rw [t5 hf]
+    simp only
+    unfold fitsI64 at hf; simp only [decide_eq_true_eq] at hf
+    have h1 : ¬ a.val < I64MIN := by unfold I64MIN; omega
+    have h2 : ¬ a.val > I64MAX := by unfold I64MAX; omega
+    rw [if_neg h1, if_neg h2]
+  · have hf' : fitsI64 a.val = false := by simpa using hf
+    rw [t4 hf']
+    simp only
+    unfold fitsI64 at hf'; simp only [decide_eq_false_iff_not] at hf'
+    by_cases hc : a.c < 0
+    · rw [if_pos hc]
+      have hneg := hsign.mp hc
+      have h1 : a.val < I64MIN := by unfold I64MIN; omega
+      rw [if_pos h1]
+    · rw [if_neg hc]
+      have hnn : ¬ a.val < 0 := fun h => hc (hsign.mpr h)
+      have h1 : ¬ a.val < I64MIN := by unfold I64MIN; omega
+      have h2 : a.val > I64MAX := by unfold I64MAX; omega
+      rw [if_neg h1, if_pos h2]
+
+example : Dur.truncated ⟨-3, 1000000000000000000⟩ = .ok (-8467280000000000000) := by decide
 
 end Hifi.C02
